@@ -42,7 +42,7 @@ def free_pieces(rng, depth):
 def body_lines(rng, level, names):
     lines = []
     for _ in range(rng.range(1, 5)):
-        k = rng.weighted([("text", 4), ("expr", 5), ("mixed", 3), ("ifinline", 2), ("ifblock", 2), ("each", 2),
+        k = rng.weighted([("text", 4), ("expr", 5), ("hexpr", 3), ("mixed", 3), ("ifinline", 2), ("ifblock", 2), ("each", 2),
                           ("nested", 3 if level > 0 and names else 0), ("blank", 1), ("comment", 1), ("free", 4),
                           ("nestedinline", 2 if level > 0 and names else 0)])
         if k == "nestedinline":
@@ -52,6 +52,11 @@ def body_lines(rng, level, names):
             continue
         if k == "free":
             lines.append("q" + free_pieces(rng, 2) + "r\n")
+            continue
+        if k == "hexpr":
+            # a line whose first output comes from a value-returning helper (the default HelperDef::call writes it)
+            lines.append(rng.pick(["{{{lookup @root \"s\"}}}", "{{{lookup @root \"m\"}}}", "{{len ys}}", "{{eq 1 1}} z", "{{{lookup @root \"e\"}}}x",
+                                   "{{lookup @root \"s\"}}{{{m}}}", "{{not f}}"]) + "\n")
             continue
         if k == "text":
             lines.append(rng.pick(["text", "  indented", "a b c", "\ttab", "x<y"]) + "\n")
